@@ -523,7 +523,8 @@ def run_concur_job(job, scens, run_case, prop, files, alphabet=None):
     if job.get("deep"):
         # cheap scenarios (scaled-down curve): additionally <= 2 preemptions offered at the first 3 (quick) / 5 (thorough) executions
         # of a line - a race that needs the second switch in the middle of the other thread's loop
-        passes = passes + [(2, 3, 30_000, True)] if job["tier"] == "quick" else passes + [(2, 5, 150_000, True)]
+        dh = job["deep"] if isinstance(job["deep"], int) and not isinstance(job["deep"], bool) else 3
+        passes = passes + [(2, dh, 30_000, True)] if job["tier"] == "quick" else passes + [(2, dh + 2, 150_000, True)]
     n_exec = 0
     for bound, hits, cap, *vis in passes:
         ex = concur.explore_cases(acc, run_case, prop, scen, files, bound, max_hits=hits, max_exec=cap, visible=bool(vis and vis[0]))
